@@ -140,7 +140,7 @@ def _snap_table(t):
 
 
 def _check(kind, unitful, rows, mshape, per_row_shape, use_bkg, rename,
-           discretize):
+           discretize, twin=False):
     from photutils.datasets import make_model_image
     model, t, pmap, xn, yn = _table(kind, unitful, rows, per_row_shape,
                                     use_bkg, rename)
@@ -159,7 +159,7 @@ def _check(kind, unitful, rows, mshape, per_row_shape, use_bkg, rename,
         except Exception as e:  # noqa
             return f'raised {e!r}'
     exp, unit = _expected(kind, unitful, rows, mshape, per_row_shape,
-                          use_bkg, discretize)
+                          use_bkg and not twin, discretize)
     got_unit = getattr(img, 'unit', None)
     if unitful and unit is not None and got_unit != unit:
         return f'unit of the image is {got_unit}, expected {unit}'
@@ -213,7 +213,7 @@ def _run_table(case):
         ctx.stats.obligations += 1
         cnt['n'] += 1
         msg = _check(kind, unitful, rows, mshape, per_row, use_bkg, rename,
-                     disc)
+                     disc, twin=bool(case.get('twin')))
         params = dict(kind='table', model=kind, unitful=unitful, rows=rows,
                       mshape=mshape, per_row=per_row, use_bkg=use_bkg,
                       rename=rename, disc=disc)
@@ -305,6 +305,8 @@ def cases(tier, seed):
     for disc in ('interp', 'oversample'):
         cs.append(dict(kind='table', name=f'table-prf-{disc}', model='prf',
                        pool=[0, 1, 6, 8], disc=disc))
+    cs.append(dict(kind='table', name='table-twin', model='prf', pool=[0, 1],
+                   twin=True))
     cs.append(dict(kind='residual', name='psfphot-model-residual'))
     if tier == 'thorough':
         cs.append(dict(kind='table', name='table-prf-3rows', model='prf',
